@@ -1439,7 +1439,8 @@ namespace awkward {
         return std::make_shared<RecordArray>(identities_,
                                              parameters_,
                                              contents,
-                                             recordlookup_);
+                                             recordlookup_,
+                                             length_);
       }
     }
   }
@@ -1469,7 +1470,8 @@ namespace awkward {
         return std::make_shared<RecordArray>(identities_,
                                              parameters_,
                                              contents,
-                                             recordlookup_);
+                                             recordlookup_,
+                                             length_);
       }
     }
   }
